@@ -11,7 +11,7 @@ from mirsym.engine import TRUE, FALSE, clone_val
 from mirsym.models import eq_term, and_all, or_all, utf8_valid
 
 S = ber.bstr
-FORMS = ['min', 1, 2, 4]
+FORMS = ['min', 1, 2, 4, 8]
 OIDS = {'PagedResults': '1.2.840.113556.1.4.319', 'SyncRequest': '1.3.6.1.4.1.4203.1.9.1.1', 'PreRead': '1.3.6.1.1.13.1', 'PostRead': '1.3.6.1.1.13.2',
         'Assertion': '1.3.6.1.1.12', 'MatchedValues': '1.2.826.0.1.3344810.2.3', 'ProxyAuth': '2.16.840.1.113730.3.4.18', 'TxnSpec': '1.3.6.1.1.21.2',
         'ManageDsaIt': '2.16.840.1.113730.3.4.2', 'RelaxRules': '1.3.6.1.4.1.4203.666.5.12', 'WhoAmI': '1.3.6.1.4.1.4203.1.11.3', 'StartTxn': '1.3.6.1.1.21.1',
@@ -487,7 +487,7 @@ def body(chk):
         'request controls: the expected OID / criticality / BER value is written here from RFC 2696, 4533, 4527, 4528, 3876, 4370, 5805, 3296, draft relax, 4532, 3062',
         'response values are well-formed by construction (malformed ones panic by documented design and are outside this property)',
         'EndTxn response decoding is not in the property\'s list and is not checked',
-        'one length form per response value (all TLVs alike), chosen among short/81/82/84',
+        'one length form per response value (all TLVs alike), chosen among short/81/82/84/88',
     ]
 
 
